@@ -621,6 +621,13 @@ def correspondence(ctx: Ctx, cases, tag="c"):
         ctx.dist("outcome", o["raised"] or "ok")
         for p in c["params"]:
             ctx.dist("values_written_as", "expr:" + p["expr"].split("(")[0] if p.get("expr") else p["kind"])
+            if p["enabled"] and p["kind"] == "lit":
+                vs = [tuple(v) if isinstance(v, list) else (v,) for v in p["values"]]
+                order = ("single" if len(vs) < 2 else "repeats" if len(set(vs)) < len(vs) else
+                         "ascending" if vs == sorted(vs) else "descending" if vs == sorted(vs, reverse=True) else "unsorted")
+                ctx.dist("list_order" + ("/dask" if c.get("dask") else ""), order)
+                ctx.dist("list_values", ("vector" if isinstance(p["values"][0], list) else "scalar")
+                         + ("/negative" if any(x < 0 for v in vs for x in v) else ""))
     return mism, viol, pairs
 
 
